@@ -640,11 +640,12 @@ func (s *scanner) string() Token {
 			case 't':
 				valueBuilder.WriteRune('\t')
 			default:
-				valueBuilder.WriteRune(c)
+				// Copy the source bytes so invalid UTF-8 is preserved.
+				valueBuilder.WriteString(s.s[s.last:s.pos])
 			}
 		default:
 			if valueBuilder != nil {
-				valueBuilder.WriteRune(c)
+				valueBuilder.WriteString(s.s[s.last:s.pos])
 			}
 		}
 	}
